@@ -324,15 +324,35 @@ func (s *Store) Instantiate(
 	sys *internalsys.Context,
 	typeIDs []FunctionTypeID,
 ) (*ModuleInstance, error) {
+	return s.InstantiateWithCodeCloser(ctx, module, name, sys, typeIDs, nil)
+}
+
+// InstantiateWithCodeCloser is like Instantiate, but also attaches codeCloser (closed with the module) and the
+// experimental.CloseNotifier found in ctx before the module is registered: once registered, the module is visible to
+// a concurrent Store.CloseWithExitCode, which must already see both or it would neither notify nor release the code.
+func (s *Store) InstantiateWithCodeCloser(
+	ctx context.Context,
+	module *Module,
+	name string,
+	sys *internalsys.Context,
+	typeIDs []FunctionTypeID,
+	codeCloser api.Closer,
+) (*ModuleInstance, error) {
 	// Instantiate the module and add it to the store so that other modules can import it.
 	m, err := s.instantiate(ctx, module, name, sys, typeIDs)
 	if err != nil {
 		return nil, err
 	}
+	if closeNotifier, ok := ctx.Value(expctxkeys.CloseNotifierKey{}).(experimental.CloseNotifier); ok {
+		m.CloseNotifier = closeNotifier
+	}
+	m.CodeCloser = codeCloser
 
 	// Now that the instantiation is complete without error, add it.
 	verifhook.Point("store.instantiate.before-register")
 	if err = s.registerModule(m); err != nil {
+		// This module was never visible: don't notify, and leave closing the code to the caller.
+		m.CloseNotifier, m.CodeCloser = nil, nil
 		_ = m.Close(ctx)
 		return nil, err
 	}
